@@ -334,10 +334,12 @@ def make_variants(prog, rng, full: bool) -> list[dict]:
           name=rng.random() < 0.5, doc=rng.random() < 0.5, opset=rng.random() < 0.5),
         v("graph", with_arguments=False, kw=rng.choice(TO_MODEL_KW), name=rng.random() < 0.5, doc=rng.random() < 0.5,
           opset=rng.random() < 0.5),
+        # the conversion route: the program was written at one version, the Graph asks for a NEWER one
+        v("graph", with_arguments=rng.random() < 0.7, kw=rng.choice(TO_MODEL_KW), name=False, doc=False, opset=False, upgrade=True),
     ]
     if full:
         return pool
-    return [pool[0], rng.choice(pool[1:])]
+    return [pool[0], rng.choice(pool[1:] + pool[-1:])]
 
 
 def run_variant(prog, R, variant, bindings, specs):
@@ -423,6 +425,8 @@ def run_variant(prog, R, variant, bindings, specs):
                         g = g.with_doc("what the graph does")
                     if variant.get("opset"):
                         g = g.with_opset(("ai.onnx", prog.get("opset", 17)))
+                    if variant.get("upgrade") and prog.get("opset", 17) < 21 and not any(n_["op"] in ML_SENSITIVE for n_ in prog["nodes"]):
+                        g = g.with_opset(("ai.onnx", variant.get("target") or vr.randint(prog.get("opset", 17) + 1, 21)))
                     to_model = g.to_onnx_model
                     get_arguments = g.get_arguments
                 except (AttributeError, TypeError, ImportError) as e:
@@ -474,6 +478,40 @@ def run_variant(prog, R, variant, bindings, specs):
 
 
 N_ = L.N
+
+
+def non_argument_probe(prog, R):
+    """`inputs` holding a Var that is NOT an argument (here: a requested output) must be refused with the documented
+    TypeError — and the refusal must leave nothing behind: the same objects still build, under the caller's names,
+    right afterwards.  Returns (key, what) | None."""
+    import warnings
+
+    import spox
+
+    bad = next((v for k, v in R.vars.items() if prog["nodes"][k[0]]["op"] != "arg"), None)
+    if bad is None:
+        return None
+    inputs = dict(R.inputs)
+    inputs["not_an_argument"] = bad
+    try:
+        with warnings.catch_warnings():
+            warnings.simplefilter("ignore")
+            spox.build(inputs, dict(R.outputs))
+        return ("non-argument-input:accepted", "spox.build accepted an `inputs` entry that is the result of an operator (documented: TypeError)")
+    except TypeError:
+        pass
+    except Exception as e:  # noqa: BLE001
+        return (f"non-argument-input:raises:{type(e).__name__}", f"`inputs` entry that is not an argument: {type(e).__name__} instead of the documented TypeError: {str(e)[:120]}")
+    try:
+        with warnings.catch_warnings():
+            warnings.simplefilter("ignore")
+            m = spox.build(dict(R.inputs), dict(R.outputs))
+    except Exception as e:  # noqa: BLE001
+        return (f"build-raises:{type(e).__name__}", f"the build right after a refused request (non-argument input) raised {type(e).__name__}: {str(e)[:160]}")
+    if [i.name for i in m.graph.input] != list(R.inputs) or sorted(o.name for o in m.graph.output) != sorted(R.outputs):
+        return ("wrong-inputs", f"after a refused request the same objects build with inputs {[i.name for i in m.graph.input]} instead of {list(R.inputs)}")
+    return None
+ML_SENSITIVE: tuple = ()  # operators whose upgrade the version converter does not support (none met so far)
 
 
 def run_variant_case(prog, style, rseed, variant, bindings, dims="concrete"):
@@ -578,7 +616,7 @@ def run(ck: core.Check):
         ck.cov["sequence_parameters_inventory"] = c01_variadic.generate()
     except Exception as e:  # noqa: BLE001
         ck.broken("generated", "C01 sequence-parameter inventory (translator/c01_variadic.py)", f"{type(e).__name__}: {e}")
-    ck.lean(["SpoxModel.Props.C01"], audit="SpoxModel.Audit.C01")
+    ck.lean(["SpoxModel.Props.C01", "SpoxModel.Props.C01Build"], audit="SpoxModel.Audit.C01")
     if entry is not None:
         # the Lean lists say what the harness varies: keep them honest against the harness's own tables
         varied = sorted({k for kw in TO_MODEL_KW for k in kw})
@@ -599,10 +637,10 @@ def run(ck: core.Check):
             ck.broken("generated", "C01 could not compare the exercised-option lists", f"{type(e).__name__}: {e}")
         ck.cov["entry_options_inventory"] = {k: [list(x) if isinstance(x, tuple) else x for x in v] for k, v in entry.items()}
     if ck.thorough:
-        ck.leanchecker(["SpoxModel.Props.C01"])
+        ck.leanchecker(["SpoxModel.Props.C01", "SpoxModel.Props.C01Build"])
 
     rng = ck.rng
-    n_random = ck.pick(360, 6000)
+    n_random = ck.pick(360, 5000)
     n_styles = ck.pick(3, 4)
     n_bind = 3
     skel_uses = ck.pick(3, 6)
@@ -626,6 +664,8 @@ def run(ck: core.Check):
         programs.append((prog, "skeleton5:" + tag))
     for prog, tag in L.no_input_programs():  # outputs that read no input at all: the drop build has no inputs
         programs.append((prog, "skeleton5:no-input:" + tag))
+    for prog, tag in L.upgrade_programs():  # the conversion route: an operator that changes after 17, inside bodies
+        programs.append((prog, "skeleton7:upgrade:" + tag))
     for prog, tag in L.variadic_programs():  # every sequence-taking constructor x operand count x placement
         programs.append((prog, "skeleton6:variadic:" + tag))
     n_skel = len(programs)
@@ -642,6 +682,17 @@ def run(ck: core.Check):
         programs.append((L.gen_program(random.Random(rng.getrandbits(48)), size=size, max_depth=rng.choice([2, 3, 3, 4]),
                                        opset=rng.choice([17, 17, 17, 18, 18, 19, 20, 21])), "random"))
 
+    # other element types / zero- and other-length vectors for the type-generic skeleton families
+    hist_retype = collections.Counter()
+    for i_, (p_, o_) in enumerate(programs):
+        if o_.split(":")[0] in ("skeleton", "skeleton2", "skeleton3", "skeleton5") and rng.random() < 0.35:
+            dt_, ln_ = rng.choice([("f64", None), ("i32", None), ("f64", 5), (None, 0), ("f64", 0), ("i32", 0), (None, 1), ("i32", 5)])
+            # (float16 is left out: onnxruntime computes these operators in float32 and rounds once, numpy rounds
+            #  after every operator — values above 2048 differ in the last place; not a property of spox)
+            q_ = L.retype(p_, dt_, ln_)
+            if q_ is not None:
+                programs[i_] = (q_, f"{o_} [retyped {dt_ or 'i64'}, length {N_ if ln_ is None else ln_}]")
+                hist_retype[f"{dt_ or 'i64'}/{'N' if ln_ is None else ln_}"] += 1
     hist_opset = collections.Counter(p_["opset"] for p_, _ in programs)
     hist_ops = collections.Counter()
     hist_depth = collections.Counter()
@@ -685,6 +736,11 @@ def run(ck: core.Check):
     hist_dims = collections.Counter()
     hist_mut = collections.Counter()
     ev_reqs: list = []
+    bridge_reqs: list = []
+    bridge_meta: list = []
+
+    def problems_of(res_):
+        return bool(res_["problems"]) or res_["emission"] is None
     ev_obs: list = []
     variant_hist = collections.Counter()
     for pi, (prog, origin) in enumerate(programs):
@@ -802,12 +858,26 @@ def run(ck: core.Check):
                     pass
                 is5 = origin.startswith("skeleton5")
                 variants = make_variants(prog, rng, full=is5)
-                if is5:
+                if origin.startswith("skeleton7"):  # every newer version, with and without with_arguments
+                    variants = [dict(make_variants(prog, rng, True)[-1], target=t_, with_arguments=bool(t_ % 2)) for t_ in (18, 19, 20, 21)]
+                elif is5:
                     variants = [variants[0]] + rng.sample(variants[1:], ck.pick(1, 2))
                 elif pi % 4:
                     variants = variants[:1]
                     if not ck.thorough and pi % 2 and origin.split(":")[0] in ("skeleton", "skeleton2", "skeleton3", "skeleton4"):
                         variants = []  # (quick budget: these families read every input at depth <= 1; every 2nd program)
+                if pi % 8 == 0:
+                    try:
+                        nf = non_argument_probe(prog, R)
+                        stats["non_argument_input_probes"] += 1
+                    except Exception as e:  # noqa: BLE001
+                        nf = None
+                        ck.broken("correspondence", "C01 non-argument-input probe", f"{origin}: {type(e).__name__}: {e}")
+                    if nf:
+                        doc = case_doc(prog, style, rseed, bindings, dims)
+                        doc["non_argument_probe"] = True
+                        ck.failure(nf[0], f"{nf[1]} [{origin}, style {style}]", doc)
+                        stats["oracle_failures"] += 1
                 for variant in variants:
                     try:
                         vres = run_variant(prog, R, variant, bindings, specs)
@@ -821,7 +891,7 @@ def run(ck: core.Check):
                         notes["variant-route-unavailable"] += 1
                         continue
                     stats["variant_builds"] += 1
-                    variant_hist[variant["route"] + ("/drop" if variant["drop"] else "") + ("/extra-args" if variant["extra"] else "")
+                    variant_hist[variant["route"] + ("/drop" if variant["drop"] else "") + ("/extra-args" if variant["extra"] else "") + ("/newer-opset" if variant.get("upgrade") else "")
                                  + ("/with_arguments" if variant.get("with_arguments") else "")] += 1
                     if vres["fail"]:
                         vkey, vwhat = vres["fail"]
@@ -902,6 +972,16 @@ def run(ck: core.Check):
                 continue
             queue_lean(prog, R, em, res["model"], [int(i.name[2:]) for i in res["model"].graph.input],
                        (pi, style, rseed, origin), stats["builds"] % 4 == 0)
+            if style == styles[0] and not problems_of(res):
+                # the Builder ALGORITHM model (C04's BuildAlg.build) on the same program: hypotheses of
+                # C01Build.built_model_computes_dataflow and its emission vs the real one
+                try:
+                    b_args = [int(i.name[2:]) for i in res["model"].graph.input]
+                    b_res = [prog["outputs"][int(o.name[3:])] for o in res["model"].graph.output]
+                    bridge_reqs.append({"bridge": L.to_buildalg(prog, b_args, b_res)})
+                    bridge_meta.append((pi, style, rseed, origin, L.normal_emission(prog, em)))
+                except Exception as e:  # noqa: BLE001
+                    ck.broken("correspondence", "C01/C04 bridge request", f"{origin}: {type(e).__name__}: {e}")
             # the same emission questions for the models of the drop_unused_inputs builds of this case
             for vmodel, vargs, vcaller in drop_models:
                 try:
@@ -924,7 +1004,11 @@ def run(ck: core.Check):
     # --- the Lean side of the translation validation
     mism = collections.Counter()
     try:
+        import time as _time
+
+        _t0 = _time.time()
         outs = ck.driver().ask_many("C01", lean_reqs)
+        ck.log(f"translation validation: {len(lean_reqs)} requests ({_time.time() - _t0:.1f}s)")
     except Exception as e:  # noqa: BLE001
         ck.broken("correspondence", "C01 driver", str(e)[:400])
         outs = []
@@ -964,6 +1048,37 @@ def run(ck: core.Check):
                     ck.broken("correspondence", "C01 renaming: values differ between creation-order and abstract numbering",
                               f"program #{meta[0]} style={meta[1]} rseed={meta[2]}")
         prev = (o, meta)
+
+    # --- bridge: the Builder algorithm model on the same programs (tie for Props/C01Build.lean)
+    try:
+        import time as _time
+
+        _t0 = _time.time()
+        bouts = ck.driver().ask_many("C01", bridge_reqs) if bridge_reqs else []
+        ck.log(f"bridge: {len(bridge_reqs)} programs through the Builder algorithm model ({_time.time() - _t0:.1f}s)")
+    except Exception as e:  # noqa: BLE001
+        ck.broken("correspondence", "C01 bridge driver", str(e)[:300])
+        bouts = []
+    for o, meta in zip(bouts, bridge_meta):
+        bprog = programs[meta[0]][0]
+        tagb = None
+        if "error" in o:
+            tagb = "driver-error"
+        elif not (o.get("wf") and o.get("built")):
+            tagb = "algorithm-model-does-not-build (WFb / build)"
+        elif not o.get("mainClean"):
+            tagb = "mainCleanB-false-on-a-front-end-program"
+        elif not o.get("valid"):
+            tagb = "validG-rejects-the-algorithm-model-emission"
+        elif L.normal_emission(bprog, o["emit"], attr_order=True) != meta[4]:
+            tagb = "algorithm-model-emission-differs-from-the-real-emission"
+        if tagb:
+            mism["bridge: " + tagb] += 1
+            if mism["bridge: " + tagb] <= 2:
+                ck.broken("correspondence", f"C01/C04 bridge: {tagb}",
+                          f"program #{meta[0]} ({meta[3]}) style={meta[1]} rseed={meta[2]} answer={json.dumps(o)[:300]} real={json.dumps(meta[4])[:300]}")
+        else:
+            stats["bridge_ok"] += 1
 
     # --- caller-owned containers: the model's snapshots vs what the constructed nodes hold after the mutations
     try:
@@ -1046,6 +1161,7 @@ def run(ck: core.Check):
             "bindings_skipped_overflow": stats["bindings_skipped_overflow"],
             "oracle_failures": stats["oracle_failures"],
             "variant_builds": stats["variant_builds"],
+            "non_argument_input_probes": stats["non_argument_input_probes"],
             "variant_builds_by_kind": dict(variant_hist),
             "drop_unused_inputs_models_validated_by_lean": stats["drop_builds_validated"],
             "model_inputs_dropped_by_drop_builds": stats["inputs_dropped"],
@@ -1058,9 +1174,11 @@ def run(ck: core.Check):
                 "styles": dict(hist_style),
                 "opset_versions": dict(hist_opset),
                 "model_inputs_declared": dict(hist_dims),
+                "skeleton_programs_retyped (element type / vector length)": dict(hist_retype),
                 "caller_owned_lists_handed_to_constructors": stats["caller_owned_containers"],
                 "caller_mutations_after_construction": dict(hist_mut),
                 "container_probes_passed": dict(probe_hist),
+                "builder_algorithm_model_emission_equals_real_and_hypotheses_hold": stats["bridge_ok"],
                 "container_event_traces_compared_with_model": stats["container_traces_compared"],
                 "emitted_nodes": stats["emitted_nodes"],
                 "emitted_graphs": stats["emitted_graphs"],
@@ -1072,6 +1190,7 @@ def run(ck: core.Check):
                 "created_outside_emitted_inside_body": stats["created_outside_emitted_inside_body"],
             },
             "runtime_notes": dict(notes),
+            "onnxruntime_child_process_crashes_survived": L.ort_crashes(),
         }
     )
     ck.exhaustive = False
@@ -1107,6 +1226,18 @@ def replay(ck: core.Check, doc) -> bool:
         return False
     prog = case["prog"]
     bindings = [L.binding_from_json(prog, b) for b in case["bindings"]]
+    if case.get("non_argument_probe"):
+        import warnings
+
+        with warnings.catch_warnings():
+            warnings.simplefilter("ignore")
+            R_ = L.realise(prog, random.Random(case["rseed"]), case["style"], twins=bool(prog.get("special")), dims=case.get("dims", "concrete"))
+        nf = non_argument_probe(prog, R_)
+        if nf:
+            print(f"{nf[0]}: {nf[1]}")
+            return True
+        print("a non-argument Var in `inputs` is refused with TypeError and leaves nothing behind")
+        return False
     if case.get("variant"):
         vf = run_variant_case(prog, case["style"], case["rseed"], case["variant"], bindings, case.get("dims", "concrete"))
         if vf:
